@@ -1,8 +1,165 @@
-From Coq Require Import ZArith QArith Qabs List Bool.
-From QE Require Import Base.Num C19.Model C19.Proofs.
+(* C19 property theorems: statements only, each closed by `exact`, with Print Assumptions. *)
+From Coq Require Import ZArith QArith Qabs List Bool Permutation.
+From QE Require Import Base.Num C19.Model C19.Proofs C19.Proofs2 C19.Proofs3 C19.Findings.
 Import ListNotations.
 Open Scope Q_scope.
 
-Theorem C19_sumQ_cons : forall x l, sumQ (x :: l) == x + sumQ l.
-Proof. exact sumQ_cons. Qed.
-Print Assumptions C19_sumQ_cons.
+(* ---- Gini coefficient (guard: non-empty sample with non-zero total, otherwise the code returns nan) *)
+Theorem C19_gini_def : forall y, (0 < length y)%nat -> ~ sum_list y == 0 ->
+  gini y == mad y / (2 * mean y).
+Proof. exact gini_def. Qed.
+Print Assumptions C19_gini_def.
+
+Theorem C19_gini_perm : forall y y', Permutation y y' -> gini y == gini y'.
+Proof. exact gini_perm. Qed.
+Print Assumptions C19_gini_perm.
+
+Theorem C19_gini_scale : forall c y, 0 < c -> (0 < length y)%nat -> ~ sum_list y == 0 ->
+  gini (map (Qmult c) y) == gini y.
+Proof. exact gini_scale. Qed.
+Print Assumptions C19_gini_scale.
+
+(* gini = 1 - 2 * (trapezoid area under the Lorenz curve) *)
+Theorem C19_gini_lorenz : forall y, (0 < length y)%nat -> ~ sum_list y == 0 ->
+  gini y == 1 - 2 * trapz (fst (lorenz y)) (snd (lorenz y)).
+Proof. exact gini_lorenz. Qed.
+Print Assumptions C19_gini_lorenz.
+
+(* the Lorenz curve runs from (0,0) to (1,1), is non-decreasing and convex *)
+Theorem C19_lorenz_shape : forall y, (0 < length y)%nat -> Forall (fun v => 0 <= v) y -> 0 < sum_list y ->
+  let n := length y in
+  let cp := fst (lorenz y) in let ci := snd (lorenz y) in
+  length cp = S n /\ length ci = S n /\
+  getQ cp 0 == 0 /\ getQ ci 0 == 0 /\ getQ cp n == 1 /\ getQ ci n == 1 /\
+  (forall i, (i < n)%nat -> getQ cp i <= getQ cp (S i) /\ getQ ci i <= getQ ci (S i)) /\
+  (forall i, (S i < n)%nat -> getQ ci (S i) - getQ ci i <= getQ ci (S (S i)) - getQ ci (S i)).
+Proof. exact lorenz_shape. Qed.
+Print Assumptions C19_lorenz_shape.
+
+Example ex_gini : let y := [1; 2; 2; 0; 5 # 2] in
+  (0 < length y)%nat /\ Forall (fun v => 0 <= v) y /\ 0 < sum_list y /\ Qeq_bool (gini y) (8 # 25) = true.
+Proof. cbv zeta. split; [cbn; auto with arith|]. split; [repeat constructor; discriminate|]. split; reflexivity. Qed.
+
+(* ---- ECDF: fraction of observations <= x *)
+Theorem C19_ecdf_spec : forall obs x,
+  ecdf obs x == natQ (length (filter (fun o => Qle_bool o x) obs)) / natQ (length obs) /\
+  forall o, In o (filter (fun o => Qle_bool o x) obs) <-> In o obs /\ o <= x.
+Proof. intros obs x. exact (conj (ecdf_spec obs x) (ecdf_count obs x)). Qed.
+Print Assumptions C19_ecdf_spec.
+
+(* ---- ARMA impulse response with the repaired set_params: psi_0 = 1 and the ARMA recursion, ALL p, q
+   (scalar or list parameters, any padding case p<q, p=q, p>q) *)
+Theorem C19_arma_impulse_spec : forall phi theta n,
+  exists psi, impulse_response phi theta n = Some psi /\ length psi = n /\
+    forall j, (j < n)%nat ->
+      getQ psi j == (if (j =? 0)%nat then 1 else getQ (as_list theta) (j - 1)) + arsum (as_list phi) psi j.
+Proof. exact arma_impulse_spec. Qed.
+Print Assumptions C19_arma_impulse_spec.
+
+(* the set_params of the tree before commit 8cad833 (faithful model in Findings.v) violates it: finding D6 *)
+Theorem C19_arma_impulse_refuted :
+  exists phi theta n psi,
+    impulse_response_old phi theta n = Some psi /\ (0 < n)%nat /\
+    getQ psi 0 == 0 /\ ~ getQ psi 0 == 1 /\ getQ psi 1 == 1 /\ getQ psi 2 == 4 # 5.
+Proof. exact arma_impulse_refuted. Qed.
+Print Assumptions C19_arma_impulse_refuted.
+
+(* ---- Hamilton filter, regression variant: the trend is X b with b solving the normal equations X'X b = X'y,
+   it is undefined (NaN) exactly on the first p+h-1 dates, and cycle + trend = data wherever defined *)
+Theorem C19_hamilton_spec : forall y h p cycle trend,
+  hamilton y h (Some p) = Some (cycle, trend) ->
+  let T := length y in
+  let X := ham_X y h p in
+  (1 <= p + h <= T)%nat /\
+  exists b,
+    (forall i, getQ (mat_vec (XtX X (S p)) b) i == getQ (Xty X (ham_target y h p) (S p)) i) /\
+    length trend = T /\ length cycle = T /\
+    forall t, (t < T)%nat ->
+      ((t < p + h - 1)%nat -> nth t cycle None = None /\ nth t trend None = None) /\
+      ((p + h - 1 <= t)%nat ->
+         exists c tr, nth t cycle None = Some c /\ nth t trend None = Some tr /\
+                      tr = dotQ (nth (t - (p + h - 1)) X []) b /\ c + tr == getQ y t).
+Proof. exact hamilton_spec_reg. Qed.
+Print Assumptions C19_hamilton_spec.
+
+(* row r of X belongs to date t = p+h-1+r and holds (1, y_{t-h}, ..., y_{t-h-p+1}) *)
+Theorem C19_hamilton_regressors : forall y h p r, (r < ham_rows (length y) h p)%nat ->
+  nth r (ham_X y h p) [] = 1 :: map (fun j => getQ y (p - j + r)) (seq 1 p).
+Proof. exact ham_X_row. Qed.
+Print Assumptions C19_hamilton_regressors.
+
+(* random-walk variant: cycle_t = y_t - y_{t-h}, undefined on the first h dates *)
+Theorem C19_hamilton_rw_spec : forall y h cycle trend,
+  hamilton y h None = Some (cycle, trend) ->
+  let T := length y in
+  (h <= T)%nat /\ length cycle = T /\ length trend = T /\
+  forall t, (t < T)%nat ->
+    ((t < h)%nat -> nth t cycle None = None /\ nth t trend None = None) /\
+    ((h <= t)%nat ->
+       exists c tr, nth t cycle None = Some c /\ nth t trend None = Some tr /\
+                    c == getQ y t - getQ y (t - h) /\ c + tr == getQ y t).
+Proof. exact hamilton_spec_rw. Qed.
+Print Assumptions C19_hamilton_rw_spec.
+
+Example ex_hamilton :
+  exists c t, hamilton [1; 3; 2; 5; 4; 6; 8; 7; 9; 12; 10; 13] 2 (Some 2%nat) = Some (c, t) /\
+              nth 2 t None = None /\ nth 3 t None <> None.
+Proof. eexists. eexists. split; [vm_compute; reflexivity|]. split; [reflexivity|discriminate]. Qed.
+
+(* ---- periodogram: retained frequencies (fractions of 2 pi) are exactly j/n with 2j <= n, in order,
+   and the k-th value is |DFT_k|^2 / n *)
+Theorem C19_periodogram_indices : forall dft : list (Q * Q),
+  let n := length dft in
+  map fst (periodogram dft) =
+  map (fun j => natQ j / natQ n) (filter (fun j => (2 * j <=? n)%nat) (seq 0 n)).
+Proof. exact periodogram_indices. Qed.
+Print Assumptions C19_periodogram_indices.
+
+Theorem C19_periodogram_value : forall (dft : list (Q * Q)) k, (k < length (periodogram dft))%nat ->
+  let n := length dft in
+  let c := nth k dft (0, 0) in
+  fst (nth k (periodogram dft) (0, 0)) == natQ k / natQ n /\
+  snd (nth k (periodogram dft) (0, 0)) == (fst c * fst c + snd c * snd c) / natQ n.
+Proof. exact periodogram_value. Qed.
+Print Assumptions C19_periodogram_value.
+
+(* ---- BetaBinomial (a, b > 0 rational): the pdf binom(n,k) B(k+a,n-k+b)/B(a,b) written with rising factorials
+   is a probability vector (Chu-Vandermonde), and mean / var / skew are the moments of that pdf.
+   skew = t1 * sqrt(t2sq) involves a square root: the rational content is  mu3 = t1 * var/(a+b)  and
+   t2sq * var * (a+b)^2 = 1, i.e. t1 * sqrt(t2sq) = mu3 / var^(3/2). *)
+Theorem C19_betabinom_pdf_sums_to_one : forall n a b, 0 < a -> 0 < b ->
+  length (bb_pdf n a b) = S n /\ Forall (fun v => 0 <= v) (bb_pdf n a b) /\ sum_list (bb_pdf n a b) == 1.
+Proof.
+  intros n a b Ha Hb. split; [unfold bb_pdf; rewrite map_length, seq_length; reflexivity|].
+  split; [exact (bb_pdf_nonneg n a b Ha Hb)|exact (bb_pdf_sums_to_one n a b Ha Hb)].
+Qed.
+Print Assumptions C19_betabinom_pdf_sums_to_one.
+
+Theorem C19_betabinom_pdf_entry : forall n a b k, (k <= n)%nat ->
+  getQ (bb_pdf n a b) k == inject_Z (Cb n k) * rf a k * rf b (n - k) / rf (a + b) n.
+Proof. exact bb_pdf_nth. Qed.
+Print Assumptions C19_betabinom_pdf_entry.
+
+Theorem C19_betabinom_mean : forall n a b, 0 < a -> 0 < b ->
+  sum_list (map (fun k => natQ k * getQ (bb_pdf n a b) k) (seq 0 (S n))) == bb_mean n a b.
+Proof. exact bb_mean_spec. Qed.
+Print Assumptions C19_betabinom_mean.
+
+Theorem C19_betabinom_var : forall n a b, 0 < a -> 0 < b ->
+  sum_list (map (fun k => (natQ k - bb_mean n a b) * (natQ k - bb_mean n a b) * getQ (bb_pdf n a b) k) (seq 0 (S n)))
+  == bb_var n a b.
+Proof. exact bb_var_spec. Qed.
+Print Assumptions C19_betabinom_var.
+
+Theorem C19_betabinom_skew : forall n a b, 0 < a -> 0 < b ->
+  sum_list (map (fun k => (natQ k - bb_mean n a b) * (natQ k - bb_mean n a b) * (natQ k - bb_mean n a b)
+                          * getQ (bb_pdf n a b) k) (seq 0 (S n)))
+  == bb_skew_t1 n a b * bb_var n a b / (a + b) /\
+  ((0 < n)%nat -> bb_skew_t2sq n a b * bb_var n a b * ((a + b) * (a + b)) == 1).
+Proof. intros n a b Ha Hb. exact (conj (bb_moment3_spec n a b Ha Hb) (bb_skew_t2sq_spec n a b Ha Hb)). Qed.
+Print Assumptions C19_betabinom_skew.
+
+Example ex_betabinom_instances :
+  Qeq_bool (sum_list (bb_pdf 7 (3 # 4) (5 # 2))) 1 = true /\
+  Qeq_bool (sum_list (map (fun k => natQ k * getQ (bb_pdf 7 (3 # 4) (5 # 2)) k) (seq 0 8))) (bb_mean 7 (3 # 4) (5 # 2)) = true.
+Proof. vm_compute. repeat split; reflexivity. Qed.
